@@ -1,9 +1,9 @@
 from common import COMMON_TB
 
 CFG = {
-    "technique": "Lean 4 theorems (induction over the version table) + differential run against real bdb",
-    "level_text": "All clauses of C19 are Lean theorems about the model of migration.Upgrade for every table, stored version and failure position; the model is tied to the Go code by a differential run on random and (thorough) exhaustively enumerated small tables on a real bdb database, plus real wallet.Open runs on databases whose component versions are behind/at/ahead (multi-component single-transaction clause).",
-    "level_note": "Trusted: Lean kernel; the hand model of manager.go (checked by correspondence only on explored inputs); sort.Slice returns a sorted permutation; walletdb.Update atomicity (C11).",
+    "technique": "Lean 4 theorems (induction over the version table) + differential run against real bdb (ops up, up2 = two upgrades sharing one table, wopen = real wallet.Open)",
+    "level_text": "All clauses of C19 are Lean theorems about the model of migration.Upgrade for every table, stored version and failure position; the model is tied to the Go code by a differential run on random and (thorough) exhaustively enumerated small tables on a real bdb database, by two migration.Upgrade calls in one process whose managers return the SAME version slice (op up2: each must run exactly the pending migrations of the declared table), plus real wallet.Open runs on databases whose component versions are behind/at/ahead (multi-component single-transaction clause, C19_many_fail_in_tx / C19_many_ok_in_tx).",
+    "level_note": "Trusted: Lean kernel; the hand model of manager.go (checked by correspondence only on explored inputs); sort.Slice returns a sorted permutation (C19_order_independent is why the real code's in-place sort of a shared table is harmless); walletdb.Update atomicity (C11). Go oracle keys: Upgrade.shared-table-second-upgrade (op up2), wallet.Open.failed-upgrade-modified-db (op wopen); the oracles of op up are plain messages.",
     "lean_props": ["BtcwVerif.Props.C19"],
     "engines": ["migration"],
     "trusted_base": COMMON_TB + [
@@ -13,6 +13,7 @@ CFG = {
     ],
     "assumptions": [
         "migrations are modelled by identity + success/failure; their data effect is 'a write tagged with the id'",
+        "the version table is a value in the model: op up2 is answered from the DECLARED table twice, i.e. a manager's Versions() is assumed not to be mutated by an earlier upgrade (what the Go oracle of up2 checks on the real code)",
         "uint32 version numbers modelled as Nat (no overflow: numbers are small constants in every caller)",
     ],
 }
